@@ -19,8 +19,9 @@
     Not proved (tied to the code by the differential run only, three-way with
     strconv and the Coq-evaluated specification): the decimal slow path
     (decimal.go, modelled by [rn_b64] of the stored digits; decimal.set's digit
-    bookkeeping is covered by the acceptance theorem only) and [atofHex]
-    (hex_correct absent). *)
+    bookkeeping is covered by the acceptance theorem only).
+    [atofHex] IS proved (block p03h at the end of this file: C03_hex_correct,
+    C03_parse_float_correct; proofs in Proofs/AtofHex.v). *)
 From Coq Require Import Reals.
 From Flocq Require Import Core.Core IEEE754.BinarySingleNaN.
 From Perf Require Import Base.Bytes Base.B64 Base.DecSpec Model.Atoi Model.Atof
@@ -280,3 +281,108 @@ Example C03_oracle_instances :
   parse_float_spec (bs "0x1.000000000000080000000000000001p0") = (b64_of_bits 0x3FF0000000000001, ErrNone) /\
   parse_float (bs "0x1.000000000000080000000000000001p0") = (b64_of_bits 0x3FF0000000000001, ErrNone).
 Proof. vm_compute. repeat split. Qed.
+
+(** ===================================================================== *)
+(** ** BEGIN block p03h — atofHex (hex_correct) and ParseFloat on all texts.
+    Proofs in Proofs/AtofHex.v.  The code's three shift loops keep Flocq's
+    [inbetween_float] of the exact value (the step  mantissa>>1 | mantissa&1  is
+    [shr_1] on the record mantissa/round bit/sticky bit), stop at the format's
+    exponent, and the round / carry / assemble step (with Float64frombits of the
+    assembled word) is SpecFloat's [binary_round_aux]; Flocq's
+    [binary_round_aux_correct'] then gives round-to-nearest-even, subnormal
+    results, zero, and overflow to the infinity with the range error. *)
+From Perf Require Import Proofs.AtofHex.
+
+(** what the scanner guarantees beyond [cut_of] and atofHex relies on: when
+    hexadecimal digits were dropped ([trunc]) the 64-bit mantissa is full —
+    16 digits, the first one not zero — so ORing the sticky bit into bit 0 is sound *)
+Theorem C03_scanner_full_mantissa : forall s r,
+  read_float s = Some r -> r_hex r = true -> r_trunc r = true -> 2 ^ 60 <= r_mant r.
+Proof. exact read_float_trunc_full. Qed.
+Print Assumptions C03_scanner_full_mantissa.
+
+(** atofHex on any mantissa / exponent / trunc that is the number M * 2^E cut after
+    16 hexadecimal digits ([cut_of], the conclusion of C03_scanner_value): the value
+    is [rn_b64] of M * 2^E — correctly rounded, subnormals and zero included — and
+    the error is the range error exactly when that is an infinity *)
+Theorem C03_atof_hex_value : forall m e neg tr M E,
+  cut_of true M E m e tr -> (tr = true -> 2 ^ 60 <= m) ->
+  atof_hex m e neg tr =
+    (rn_b64 neg M true E, if b64_is_inf (rn_b64 neg M true E) then ErrRange else ErrNone).
+Proof. exact atof_hex_correct. Qed.
+Print Assumptions C03_atof_hex_value.
+
+(** hex_correct: for every hexadecimal text of the grammar, readFloat's result given
+    to atofHex yields the correctly rounded binary64 of the number written *)
+Theorem C03_hex_correct : forall s neg M E,
+  lex_float s = Some (LNum neg true M E) -> no_clamp s ->
+  exists r, read_float s = Some r /\ r_hex r = true /\ r_neg r = neg /\
+    atof_hex (r_mant r) (r_exp r) (r_neg r) (r_trunc r) =
+      (rn_b64 neg M true E, if b64_is_inf (rn_b64 neg M true E) then ErrRange else ErrNone).
+Proof. exact hex_correct. Qed.
+Print Assumptions C03_hex_correct.
+
+(** ... said with the real numbers (no [rn_b64]): the float returned is a valid
+    binary64, equal to round-to-nearest-even of the exact real (-1)^neg * M * 2^E,
+    finite and of the right sign, whenever that rounded real is below 2^1024 in
+    magnitude; otherwise it is the infinity of that sign *)
+Theorem C03_hex_rounds : forall s neg M E,
+  lex_float s = Some (LNum neg true M E) -> no_clamp s ->
+  0 <= M /\
+  exists r, read_float s = Some r /\
+    let x := exact_value neg M true E in
+    let z := fst (atof_hex (r_mant r) (r_exp r) (r_neg r) (r_trunc r)) in
+    valid_binary 53 1024 z = true /\
+    if Rlt_bool (Rabs (round radix2 (FLT_exp (-1074) 53) ZnearestE x)) (bpow radix2 1024) then
+      SF2R radix2 z = round radix2 (FLT_exp (-1074) 53) ZnearestE x /\
+      is_finite_SF z = true /\ sign_SF z = neg
+    else z = S754_infinity neg.
+Proof. exact hex_rounds. Qed.
+Print Assumptions C03_hex_rounds.
+
+(** ParseFloat = specification, bit for bit and error for error, on every hexadecimal
+    text of the grammar *)
+Theorem C03_hex_end_to_end : forall s neg M E,
+  lex_float s = Some (LNum neg true M E) -> no_clamp s ->
+  parse_float s = parse_float_spec s.
+Proof. exact hex_end_to_end. Qed.
+Print Assumptions C03_hex_end_to_end.
+
+(** ParseFloat = specification on EVERY text (syntax errors, inf/nan spellings, decimal
+    exact and slow paths, hexadecimal) whose exponent is not clamped and whose
+    significant digits fit decimal.set's 800-digit buffer (a hexadecimal text never
+    reaches that buffer: for it the second hypothesis holds vacuously).  As in
+    C03_parse_float_correct_nonhex, decimal.go's floatBits is modelled by its
+    specification; atofHex is transcribed and verified *)
+Theorem C03_parse_float_correct : forall s,
+  no_clamp s ->
+  (forall d, dec_set s = Some d -> d_trunc d = false) ->
+  parse_float s = parse_float_spec s.
+Proof. exact parse_float_correct. Qed.
+Print Assumptions C03_parse_float_correct.
+
+(** the hypotheses are satisfiable: a 31-digit hexadecimal mantissa one unit in the
+    last place above a halfway point (15 digits dropped, sticky), a subnormal
+    halfway text, an overflow and an exact zero *)
+Example C03_hex_instances :
+  let s := bs "0x1.000000000000080000000000000001p0" in
+  no_clamp s /\ (forall d, dec_set s = Some d -> d_trunc d = false) /\
+  lex_float s = Some (LNum false true 0x1000000000000080000000000000001 (-120)) /\
+  (exists r, read_float s = Some r /\ r_trunc r = true /\ r_mant r = 0x1000000000000080 /\ r_exp r = -60) /\
+  cut_of true 0x1000000000000080000000000000001 (-120) 0x1000000000000080 (-60) true /\
+  parse_float s = (b64_of_bits 0x3FF0000000000001, ErrNone) /\
+  parse_float (bs "0x1.8p-1075") = (b64_of_bits 1, ErrNone) /\
+  parse_float (bs "0x1p-1075") = (b64_of_bits 0, ErrNone) /\
+  parse_float (bs "-0x1.fffffffffffff8p1023") = (S754_infinity true, ErrRange) /\
+  parse_float (bs "-0x0p0") = (S754_zero true, ErrNone).
+Proof.
+  cbv zeta. split; [vm_compute; reflexivity|]. split.
+  { intros d H. vm_compute in H. discriminate. }
+  split; [vm_compute; reflexivity|]. split.
+  { eexists. split; [vm_compute; reflexivity|]. vm_compute. auto. }
+  split.
+  { split; [vm_compute; split; [discriminate|reflexivity]|].
+    exists 15, 1. repeat split; try (vm_compute; congruence); try discriminate; try reflexivity. }
+  vm_compute. repeat split.
+Qed.
+(** ** END block p03h *)
